@@ -58,6 +58,13 @@ def generate(ctx):
             yield 'geo', {'b': b, 'T': T, 'R': [287.0, 1.0, 0.28][r % 3]}
     for K in ([1, 2, 3, 7] if ctx.tier == 'quick' else [1, 2, 3, 5, 6, 7, 12, 24, 37]):
         yield 'equidistant', {'K': K}
+    # long vertical axes: size thresholds in the cumulative-sum strategies.  The exact-rational model is quadratic in K
+    # (minutes at K = 1000), so these cases are decided by oracles: independent numpy references and strategy agreement.
+    for K in ([130, 520, 1030] if ctx.tier == 'quick' else [70, 130, 260, 520, 1030, 2050]):
+        b = util.uneven_boundaries(rng, K).tolist()
+        ctx.count('long-axis K=%d' % K)
+        yield 'long_axis', {'b': b, 'x': util.small_rationals(rng, (K, 2)).tolist(),
+                            'T': util.small_rationals(rng, (K, 1, 2), 200, 300, 1).tolist(), 'R': 287.0}
     # malformed / borderline level sets
     bad = [[0.0], [0.0, 1.0], [0.0, 0.5, 0.5, 1.0], [0.0, 0.6, 0.4, 1.0], [0.1, 0.5, 1.0], [0.0, 0.5, 0.9],
            [5e-9, 0.5, 1.0], [2e-8, 0.5, 1.0], [0.0, 0.5, 1.000005], [0.0, 0.5, 1.00002], [0.0, 0.5, 0.99998],
@@ -221,6 +228,45 @@ def r_upwind(ctx, a):
         ctx.corr('upwind_vertical_advection', ocol, ctx.model.call(7, [K], [a['b'], wcol, col]), scale=scale)
 
 
+def r_long_axis(ctx, a):
+    """Long vertical axes (oracle only): numpy references for the midpoint integrals and both cumulative-sum helpers,
+    agreement of the strategies in both directions, the property's cumulative/total relations, geopotential dense = sparse."""
+    jnp, sc, jnu, pe = J()
+    c = _coords(a['b']); K = c.layers; x = np.asarray(a['x'], dtype=np.float64); T = np.asarray(a['T'], dtype=np.float64)
+    th = np.asarray(c.layer_thickness, dtype=np.float64)
+    scale = float(np.abs(x).sum(axis=0).max()) + 1e-300
+    ref_f = np.cumsum(x, axis=0); ref_r = np.flip(np.cumsum(np.flip(x, 0), axis=0), 0)
+    for m in ('dot', 'jax'):
+        ctx.oracle_close(f'jax_numpy_utils.cumsum method={m} = numpy cumsum (K={K})', np.asarray(jnu.cumsum(jnp.asarray(x), axis=0, method=m)), ref_f, scale=scale)
+        ctx.oracle_close(f'jax_numpy_utils.reverse_cumsum method={m} = numpy reverse cumsum (K={K})', np.asarray(jnu.reverse_cumsum(jnp.asarray(x), axis=0, method=m)), ref_r, scale=scale)
+    xd = x * th[:, None]
+    dn = np.cumsum(xd, axis=0); up = np.flip(np.cumsum(np.flip(xd, 0), axis=0), 0); tot = xd.sum(axis=0, keepdims=True)
+    res = {}
+    for m in ('dot', 'jax'):
+        for down in (True, False):
+            out = np.asarray(sc.cumulative_sigma_integral(jnp.asarray(x), c, axis=0, downward=down, cumsum_method=m)); res[m, down] = out
+            ctx.oracle_close(f'cumulative_sigma_integral {m} downward={down} = midpoint-rule reference (K={K})', out, dn if down else up, scale=scale)
+    ctx.oracle_close('sigma_integral = midpoint-rule reference', np.asarray(sc.sigma_integral(jnp.asarray(x), c, axis=0, keepdims=True)), tot, scale=scale)
+    ctx.oracle_close('cumulative integral ends at the total integral (upward)', res['dot', False][:1], tot, scale=scale)
+    ctx.oracle_close('downward + upward = total + local', res['dot', True] + res['dot', False], tot + xd, scale=scale)
+    ls = np.log(np.asarray(c.centers)); lscale = scale * float(np.abs(ls).max())
+    for down in (True, False):
+        od = np.asarray(sc.cumulative_log_sigma_integral(jnp.asarray(x), c, axis=0, downward=down, cumsum_method='dot'))
+        oj = np.asarray(sc.cumulative_log_sigma_integral(jnp.asarray(x), c, axis=0, downward=down, cumsum_method='jax'))
+        ctx.oracle_close(f'cumulative_log_sigma_integral: cumsum strategies agree, downward={down} (K={K})', od, oj, scale=lscale)
+    gscale = float(abs(a['R']) * np.abs(ls).max() * np.abs(T).sum(axis=0).max()) + 1e-300
+    gd = np.asarray(pe.get_geopotential_diff(jnp.asarray(T), c, a['R'], method='dense'))
+    gs = np.asarray(pe.get_geopotential_diff(jnp.asarray(T), c, a['R'], method='sparse'))
+    ctx.oracle_close(f'get_geopotential_diff sparse = dense (K={K})', gs, gd, scale=gscale)
+    # documented trapezoid in log sigma: phi_k - phi_s = R * [ T_K (0 - ls_K) ... ] written independently
+    Tc = T[:, 0, :]
+    seg = 0.5 * (Tc[1:] + Tc[:-1]) * (ls[1:] - ls[:-1])[:, None]          # between centres k and k+1
+    ref = np.zeros_like(Tc); ref[-1] = Tc[-1] * (0.0 - ls[-1])
+    for k in range(K - 2, -1, -1):
+        ref[k] = ref[k + 1] + seg[k]
+    ctx.oracle_close(f'get_geopotential_diff = R * trapezoid of T in log sigma (K={K})', gd[:, 0, :], a['R'] * ref, scale=gscale)
+
+
 def r_int_data(ctx, a):
     """Same routines on integer-typed arrays: results must equal those on the float copy of the data."""
     jnp, sc, jnu, pe = J()
@@ -275,4 +321,4 @@ def r_geo(ctx, a):
 
 
 RUNNERS = {'equidistant': r_equidistant, 'derived': r_derived, 'accept': r_accept, 'cumint': r_cumint, 'cumlog': r_cumlog, 'cdiff': r_cdiff,
-           'cadv': r_cadv, 'upwind': r_upwind, 'geo': r_geo, 'int_data': r_int_data}
+           'cadv': r_cadv, 'upwind': r_upwind, 'geo': r_geo, 'int_data': r_int_data, 'long_axis': r_long_axis}
